@@ -11,7 +11,8 @@ fk in FAULTS.  `to_ast` turns a shape into refint AST statements framed by probe
 import itertools
 
 CONDS = ["true", "false", "K==1", "K%2==0", "K<2", "p==1", "!(K==1)", "K==1&&p<2", "K==1||p==2", "K>=1", "K!=1", "(\"s\"+K)==\"s1\"", "bf(K)",
-         "K==1&&p<2||K==2", "K==2||p<2&&K==1"]     # the last two: grouping decided by precedence in the minimal-parentheses rendering
+         "K==1&&p<2||K==2", "K==2||p<2&&K==1",     # these two: grouping decided by precedence in the minimal-parentheses rendering
+         "flg[zi]", "box.on", "!box.on", "flg[zi]&&K==1"]     # the condition is a bare list element / object field (a reference, not a value)
 D_COND = 2
 WHILE_N = [0, 1, 2, 3]
 D_N = 2
@@ -176,7 +177,9 @@ def cond_ast(c, K):
             ("bin", "==", ("bin", "+", ("str", "s"), k), ("str", "s1")),
             ("call", var("bf"), [k]),
             ("bin", "||", ("bin", "&&", ("bin", "==", k, ("int", 1)), ("bin", "<", p, ("int", 2))), ("bin", "==", k, ("int", 2))),
-            ("bin", "||", ("bin", "==", k, ("int", 2)), ("bin", "&&", ("bin", "<", p, ("int", 2)), ("bin", "==", k, ("int", 1))))][c]
+            ("bin", "||", ("bin", "==", k, ("int", 2)), ("bin", "&&", ("bin", "<", p, ("int", 2)), ("bin", "==", k, ("int", 1)))),
+            ("index", var("flg"), var("zi")), ("field", var("box"), "on"), ("not", ("field", var("box"), "on")),
+            ("bin", "&&", ("index", var("flg"), var("zi")), ("bin", "==", k, ("int", 1)))][c]
 
 
 def probe(ctx, counters):
@@ -299,7 +302,8 @@ HELPER_BF = ("assign", "bf", ("fn", [("x", "int")], "bool",
                              [("print", ("bin", "+", ("str", "bf "), ("var", "x"))),
                               ("return", ("bin", "==", ("var", "x"), ("int", 1)))]), None, ())
 
-BOX = ("class", "Bx", [("v", "int")], ([("v", "int")], [("setfield", ("var", "self"), "v", ("var", "v"))]), [])
+BOX = ("class", "Bx", [("v", "int"), ("on", "bool")], ([("v", "int")], [("setfield", ("var", "self"), "v", ("var", "v")),
+                                                                    ("setfield", ("var", "self"), "on", ("bool", True))]), [])
 
 COLL = ["c0", "c1", "c2", "c3", "c4", "c5"]
 
@@ -314,6 +318,7 @@ def function_program(shape, variant="fn"):
         ctx.void = True
         pre = [("assign", "box", ("new", "Bx", [("int", 5)]), None, ()),
                ("assign", "lst", ("list", [("int", 10), ("int", 20)]), "[int...]", ()),
+           ("assign", "flg", ("list", [("bool", True), ("bool", False)]), "[bool...]", ()), ("assign", "zi", ("int", 0), None, ()),
                ("assign", "acc", ("int", 0), None, ()), ("assign", "st", ("int", 1), None, ())]
         pre += [("assign", c, ("int", 7), None, ()) for c in COLL]
         inner = [probe(ctx, ["p", "acc"])] + stmts(ctx, shape, ["p", "acc"], "p", 0)
@@ -326,6 +331,7 @@ def function_program(shape, variant="fn"):
         return [BOX, HELPER_G, HELPER_BF, f] + calls
     pre = [("assign", "box", ("new", "Bx", [("int", 5)]), None, ()),
            ("assign", "lst", ("list", [("int", 10), ("int", 20)]), "[int...]", ()),
+           ("assign", "flg", ("list", [("bool", True), ("bool", False)]), "[bool...]", ()), ("assign", "zi", ("int", 0), None, ()),
            ("assign", "acc", ("int", 0), None, ()), ("assign", "st", ("int", 1), None, ())]
     pre += [("assign", c, ("int", 7), None, ()) for c in COLL]
     counters0 = ["p", "acc"]
